@@ -2376,3 +2376,45 @@ def recognisers(ctx, mir, stats):
                             "detail": "returns false exactly when one of the expected type comparisons fails" if ok else "returns false although the comparisons were %s (a PDU of the expected kind can be ignored)" % matched, "where": f.name, "path": p.trace})
         obs.append({"id": "%s:can-accept" % name, "ok": n_true >= 1, "functions": [f.name], "detail": "some path accepts (%d)" % n_true, "where": f.name})
     return obs
+
+
+# --------------------------------------------------------------------------
+# C14: Stream::write must use the complete-or-error primitive
+# --------------------------------------------------------------------------
+LINK_NATIVE = _native("verif_replay_link_write_patterns", "src/model/link.rs", """
+        // a transport that accepts at most `cap` bytes per call, accepts nothing at call `zero_at`, and fails at call `fail_at`
+        struct T { out: Vec<u8>, cap: usize, calls: usize, zero_at: usize, fail_at: usize }
+        impl Read for T { fn read(&mut self, _b: &mut [u8]) -> std::io::Result<usize> { Ok(0) } }
+        impl Write for T {
+            fn write(&mut self, b: &[u8]) -> std::io::Result<usize> {
+                let c = self.calls; self.calls += 1;
+                if c == self.fail_at { return Err(std::io::Error::new(std::io::ErrorKind::BrokenPipe, "injected")); }
+                if c == self.zero_at { return Ok(0); }
+                let n = std::cmp::min(self.cap, b.len());
+                self.out.extend_from_slice(&b[..n]);
+                Ok(n)
+            }
+            fn flush(&mut self) -> std::io::Result<()> { Ok(()) }
+        }
+        let msg: Vec<u8> = (0u8..23).collect();
+        for cap in 1..25 { for zero_at in [usize::MAX, 0, 1, 2, 5].iter() { for fail_at in [usize::MAX, 0, 1, 2, 3, 7, 22].iter() {
+            let mut l = Link::new(Stream::Raw(T { out: vec![], cap, calls: 0, zero_at: *zero_at, fail_at: *fail_at }));
+            let r = l.write(&msg);
+            if let Stream::Raw(t) = &l.stream {
+                if r.is_ok() { assert_eq!(t.out, msg, "Ok but bytes missing (cap {}, zero_at {}, fail_at {})", cap, zero_at, fail_at); }
+            }
+        } } }""")
+
+
+def stream_write_all(ctx, mir, stats):
+    fs = [f for f in find_fn(mir, r"^link::<impl at src/model/link\.rs[^>]*>::write$", unique=False) if "&dyn" not in f.header]
+    if len(fs) != 1:
+        raise Inconclusive("ENCODING-FAILED: Stream::write not found")
+    f = fs[0]
+    wa = call_blocks(f, r"as std::io::Write>::write_all$|Write>::write_all$")
+    w1 = call_blocks(f, r"as std::io::Write>::write$|Write>::write$")
+    cyc = [b for b in f.order if not f.blocks[b].cleanup and any(fp_reachable(f, t, b, stats) for lab, t in f.succs(b))]
+    ok = len(wa) == 2 and not w1 and not cyc
+    return [{"id": "Stream::write:complete-or-error", "ok": ok, "functions": [f.name], "needs_native": True, "native": None if ok else LINK_NATIVE,
+             "detail": "both transport arms hand the whole buffer to Write::write_all (all bytes delivered or an error), no hand-written retry loop" if ok else
+             "Stream::write uses %d write_all / %d write calls, loop blocks %s: completeness now depends on a hand-written loop" % (len(wa), len(w1), cyc[:3]), "where": f.name}]
